@@ -82,6 +82,32 @@ def _check_reads(res, r, cfg, exp, chdir, files, hist, rng, sig_prefix):
                           "read does not return exactly the written samples at their indices, split at exactly the declared gaps",
                           dict(hist, range=[s, e]), [(a, len(t)) for a, t in want], [(k, len(got[k])) for k in sorted(got)])
             return
+    # vector reads: exactly the requested samples when every index is stored, IOError when any is not -- asked at the ends
+    # of the runs (the last stored index, the first index after it)
+    runs = wl.runs_of(exp)
+    for a, t in runs[:6]:
+        last = a + len(t) - 1
+        for s0, n in ((max(a, last - 2), last - max(a, last - 2) + 1), (max(a, last - 2), last - max(a, last - 2) + 2), (last, 2), (last + 1, 1)):
+            covered = all(k in exp for k in range(s0, s0 + n))
+            res.count("vector-reads")
+            try:
+                z = r.read_vector_raw(s0, n, "ch")
+                got_len = len(z)
+                err = None
+            except IOError as ex:
+                err = "IOError"
+                got_len = None
+            except Exception as ex:  # noqa
+                err = repr(ex)[:120]
+                got_len = None
+            if covered and (err is not None or got_len != n):
+                res.violation(sig_prefix + "vector-read-differs", "read_vector_raw over stored indices does not return them all",
+                              dict(hist, vector=[s0, n]), n, err or got_len)
+                return
+            if not covered and err != "IOError":
+                res.violation(sig_prefix + "vector-read-over-a-missing-index", "read_vector_raw answered for a range that holds an index "
+                              "never written (it must raise IOError)", dict(hist, vector=[s0, n]), "IOError", err or ("%d samples" % got_len))
+                return
     # bounds
     b = r.get_bounds("ch")
     ks = sorted(exp)
